@@ -6,7 +6,8 @@ Written from the property text and the protocol description of a chunk line
 `HWCg#|HWCgRGB#|HWCgGray# <ids> = <index> [/<last>,<W>x<H>[,<X>,<Y>]] : <base64>`; shares no code with `Model/`.
 
 The *history* is the sequence of lines as the feeding discipline reads them: the batch call takes them as they are,
-the streaming reader strips surrounding white space from every line first (callers apply `Trim.trimSpace`).
+the streaming reader strips surrounding white-space runes from every line first (callers apply `Bytes.trimSpace`, which
+is `strings.TrimSpace`: ASCII white space and U+0085, U+00A0, U+1680, U+2000–200A, U+2028/9, U+202F, U+205F, U+3000).
 An *observation* is the history and the image deliveries seen (image, the line position at which it was
 returned when the feeding discipline shows it, and the bytes the delivered object holds at the end of the history).
 
@@ -62,7 +63,8 @@ structure Chunk where
   idx : Nat
   hdr : Option Header
   payload : Option Bytes     -- `none`: not valid base64
-  small : Bool               -- every number has at most 9 digits (fits the 32-bit message fields)
+  small : Bool               -- every number fits the field it is for: target ids, dimensions and offsets are
+                             -- `uint32` message fields (value < 2^32), chunk indices are a signed 64-bit count (< 2^63)
   deriving DecidableEq, Repr
 
 def fmtOf (cmd : Bytes) : Option Nat :=
@@ -71,16 +73,20 @@ def fmtOf (cmd : Bytes) : Option Nat :=
   else if cmd = [72, 87, 67, 103, 71, 114, 97, 121] then some 2        -- HWCgGray
   else none
 
-def short (s : Bytes) : Bool := s.length ≤ 9
+/-- the number fits a `uint32` message field (target id, width, height, offset); any number of leading zeros -/
+def fits32 (s : Bytes) : Bool := value s < 2 ^ 32
 
-/-- `last,WxH` or `last,WxH,X,Y` → header and whether all numbers are short -/
+/-- the number fits a signed 64-bit count (chunk index, declared last index) -/
+def fitsInt (s : Bytes) : Bool := value s < 2 ^ 63
+
+/-- `last,WxH` or `last,WxH,X,Y` → header and whether all numbers fit their fields -/
 def parseHeader (h : Bytes) : Option (Header × Bool) :=
   match splitOn 44 h with
   | [m, wh] =>
     match cut 120 wh with
     | some (w, hh) =>
       if isNumber m ∧ isNumber w ∧ isNumber hh then
-        some (⟨value m, value w, value hh, none⟩, short m && short w && short hh)
+        some (⟨value m, value w, value hh, none⟩, fitsInt m && fits32 w && fits32 hh)
       else none
     | none => none
   | [m, wh, x, y] =>
@@ -88,7 +94,7 @@ def parseHeader (h : Bytes) : Option (Header × Bool) :=
     | some (w, hh) =>
       if isNumber m ∧ isNumber w ∧ isNumber hh ∧ isNumber x ∧ isNumber y then
         some (⟨value m, value w, value hh, some (value x, value y)⟩,
-          short m && short w && short hh && short x && short y)
+          fitsInt m && fits32 w && fits32 hh && fits32 x && fits32 y)
       else none
     | none => none
   | _ => none
@@ -109,16 +115,16 @@ def parseLine (l : Bytes) : Option Chunk :=
         | none => none
         | some fmt =>
           if ids.isEmpty ∨ !ids.all (fun c => isDigit c || c == 44) then none else
-          let idsShort := (splitOn 44 ids).all short
+          let idsFit := (splitOn 44 ids).all fits32
           match cut 47 rhs with
           | none =>
             if isNumber rhs then
-              some ⟨fmt, ids, value rhs, none, B64.decode? payload, idsShort && short rhs⟩
+              some ⟨fmt, ids, value rhs, none, B64.decode? payload, idsFit && fitsInt rhs⟩
             else none
           | some (i, h) =>
             if isNumber i then
               match parseHeader h with
-              | some (hd, sm) => some ⟨fmt, ids, value i, some hd, B64.decode? payload, idsShort && short i && sm⟩
+              | some (hd, sm) => some ⟨fmt, ids, value i, some hd, B64.decode? payload, idsFit && fitsInt i && sm⟩
               | none => none
             else none
 
@@ -146,7 +152,8 @@ structure Deliv where
   final : Bytes        -- bytes held by the delivered object at the end of the history
   deriving DecidableEq, Repr
 
-/-- all lines of the history are in the domain where the protocol fixes the numbers (≤ 9 digits each) -/
+/-- all lines of the history are in the domain where the protocol fixes the numbers: every target id, dimension and
+offset fits `uint32` (the type of the message fields), every chunk index / declared last index a signed 64-bit count -/
 def inDomain (lines : List Bytes) : Bool :=
   lines.all (fun l => match parseLine l with | some c => c.small | none => true)
 
@@ -253,7 +260,7 @@ def safetyOn (cs : List (Option Chunk)) (ds : List Deliv) : Option Clause := saf
 
 def safety (lines : List Bytes) (ds : List Deliv) : Option Clause := safetyOn (lines.map parseLine) ds
 
-/-- every number of every graphics line has at most 9 digits -/
+/-- every number of every graphics line fits its field (`Chunk.small`) -/
 def inDomainOn (cs : List (Option Chunk)) : Bool :=
   cs.all (fun oc => match oc with | some c => c.small | none => true)
 
